@@ -86,7 +86,7 @@ CLAIMS = {
    text="Proof. " + CRED_TXT + "Theorems: Props/C02Stages.lean on dec_validate_mac / dec_decrypt AS TRANSLATED from dec.c each run (every primitive call an event with the lengths it is given, its result an input): "
         "the MAC stage returns 0 iff every MAC call succeeded, the digest length equals mac_len, the comparison over mac_len bytes reports equality and no earlier stage left an error; on that path the MAC is "
         "keyed with the daemon key and fed exactly outer (outer_len) then inner (inner_len); a mismatch is EMUNGE_CRED_INVALID; a padding failure in dec_decrypt is recorded but deferred behind the MAC; "
-        "scratch buffers are sized inner_len + block and freed once on failure; the model's MAC stage accepts exactly when that kernel does. Props/C02.lean: a decode that discloses anything (success / expired / rewound / replayed) implies the credential parsed as OUTER||MAC||INNER, padding "
+        "scratch buffers are sized inner_len + block and freed once on failure; the model's MAC stage accepts exactly when that kernel does. Props/C02Memcmp.lean: crypto_memcmp (loop header checked on the AST, body translated) returns 0 exactly for identical strings. Props/C02.lean: a decode that discloses anything (success / expired / rewound / replayed) implies the credential parsed as OUTER||MAC||INNER, padding "
         "removal succeeded and MAC = mac(macKey, OUTER || decrypted still-compressed INNER) compared over the whole digest; a MAC mismatch or any parse failure before the MAC is a hard error whose "
         "message carries no payload, uid, gid, ttl, times (and leaves the replay state unchanged); under the NAMED hypothesis Unforgeable every accepted credential's MAC'd content was emitted by a "
         "key holder; under KeySeparation a credential MAC'd under another key is never accepted. Tie per run: ~3k byte-level edits (bit flips, every truncation, extensions, block swaps, splices, "
